@@ -45,13 +45,15 @@ ObsClient(o, e) ==
     LET o1 == [o EXCEPT !.cli = Put(@, e.c, [tok |-> e.t, addr |-> e.addr, status |-> e.cs1.status, reason |-> e.cs1.reason, born |-> TRUE])]
     IN FlagIf(o1, e.res = "panic", <<"C07", "NoPanic">>)
 
+\* ServerAuthentication::Unsecure (cfg.secure = FALSE): tokens are sealed with the all-zero key "Z", the host list is not checked
+CfgSecure(o) == IF "secure" \in DOMAIN o.cfg THEN o.cfg.secure ELSE TRUE
 \* a token the server must honour when presented at server time tsecs (seconds)
 TokValid(o, t, tsecs) ==
     /\ t \in DOMAIN o.tok
     /\ LET T == o.tok[t] IN
-       /\ T.ok /\ T.sealed = "K" /\ T.proto = "P" /\ T.tamper = "none"
+       /\ T.ok /\ T.sealed = (IF CfgSecure(o) THEN "K" ELSE "Z") /\ T.proto = "P" /\ T.tamper = "none"
        /\ tsecs < T.expire
-       /\ \E h \in T.hosts : h >= 1 /\ h <= o.cfg.server_addrs
+       /\ (CfgSecure(o) => \E h \in T.hosts : h >= 1 /\ h <= o.cfg.server_addrs)
 
 PublicAddr(a) == a > 100
 
